@@ -319,7 +319,19 @@ func (da *DistributedAllocator) Release(ctx context.Context, subscriberID string
 	da.mu.Lock()
 	defer da.mu.Unlock()
 
-	// Release from appropriate allocator
+	// Remove the store record first: if that fails the allocation must stay in
+	// memory too, or memory and store disagree about who holds the prefix.
+	if da.hasLocalAllocation(subscriberID) {
+		if err := da.deleteAllocation(ctx, subscriberID); err != nil {
+			return err
+		}
+		if da.mode == PoolModeLease {
+			return da.epochAllocator.Release(ctx, subscriberID)
+		}
+		return da.allocator.Release(subscriberID)
+	}
+
+	// Not held locally: release from appropriate allocator
 	if da.mode == PoolModeLease {
 		if err := da.epochAllocator.Release(ctx, subscriberID); err != nil {
 			return err
